@@ -286,8 +286,9 @@ def normalize_url(
         query = fix_common_query_mistakes(query)
 
     # Handling punycode
+    # NOTE: only the hostname must be lowercased, not the authentication
     if hostname:
-        hostname = decode_punycode_hostname(hostname)
+        hostname = decode_punycode_hostname(hostname).lower()
 
     # Dropping :80 & :443
     if port == 80 or port == 443:
@@ -416,7 +417,7 @@ def normalize_url(
 
     # Result
     netloc = unsplit_netloc(user, password, hostname, port)
-    result = SplitResult(scheme, netloc.lower(), path, query, fragment)
+    result = SplitResult(scheme, netloc, path, query, fragment)
 
     if not unsplit:
         return result
